@@ -363,8 +363,7 @@ theorem more_nodes_isolated (items : List (Item Pt)) (g : GroupID) :
 
 /-- the BATCH side of receivers (behind a window, on the batch edge's own group ids): sample, stateCount, where with
 `count()` (state kept across batches), changeDetect, derivative — isolated on every stream of buffered batches. The
-InfluxQL batch side (`iqlNodeB`, shares the createFn cache) is tied by correspondence; its isolation follows from
-`cache_keyed_by_kind` in the same way as `iql_isolated` but is not proved separately. -/
+InfluxQL batch side (`iqlNodeB`, shares the createFn cache) is `Kap.Props.C06Pipe.iqlB_isolated`. -/
 theorem batch_side_nodes_isolated (items : List (Item Batch)) (g : GroupID) :
     (∀ n, (runNode (sampleNodeB n) () items).filter (fun o => o.1 == g) = runNode (sampleNodeB n) () (items.filter (fun it => it.group == g))) ∧
     (∀ t, (runNode (stateCountNodeB t) () items).filter (fun o => o.1 == g) = runNode (stateCountNodeB t) () (items.filter (fun it => it.group == g))) ∧
